@@ -112,7 +112,11 @@ func kOperandHasTie(cs *core.Case, st *mstore.Store) bool {
 		sub.Q = ag.Expr.String()
 		r := core.RunRef(&sub, st)
 		if r.Failed() {
-			return nil
+			// the reference rejects the operand (a known finding): use the engine's own view
+			r = core.RunEngine(&sub, st).Res
+			if r.Failed() {
+				return nil
+			}
 		}
 		seen := map[int64]map[uint64]bool{}
 		for _, s := range r.Series {
